@@ -18,7 +18,7 @@ from .core import Violation, HarnessError, canon
 from .vloop import Deadlock, StepBound
 
 ROOT_STATES = ("root", "0root", "boot", "0boot")
-OK_STATUSES = ("PASS", "WARN")
+OK_STATUSES = ("PASS", "WARN")  # (a late result is logged with its plain status)
 
 # ---------------------------------------------------------------------------
 # scenario catalogue over the shipped suite (G1)
@@ -214,6 +214,8 @@ def schedule(draw, info, bias):
     # where the property presupposes that no test overruns, such outcomes are only drawn for single-worker runs
     if bias.get("never") == "single" and len(info["workers"]) == 1 and "NEVER" not in alphabet:
         alphabet.append("NEVER")
+    if bias.get("late"):
+        alphabet += ["LATE:PASS", "LATE:FAIL"]
     if fail_mode == "some":
         m = draw(st.sampled_from([4, 8, 16]))
         outcomes = draw(st.lists(st.sampled_from(["PASS", "PASS", "PASS"] + alphabet), min_size=m, max_size=m))
@@ -934,7 +936,7 @@ ASSUMPTIONS = [
 BIASES = {
     "C01": {"dry_run": False},
     "C02": {"dry_run": True},
-    "C03": {"dry_run": False, "fail_modes": ["none", "none", "some", "some", "always"], "never": "single",
+    "C03": {"dry_run": False, "fail_modes": ["none", "none", "some", "some", "always"], "never": "single", "late": True,
             "alphabet": ["FAIL", "ERROR", "WARN", "SKIP", "CANCEL", "INTERRUPTED"]},
     "C04": {"dry_run": False, "durations": ["0.1T", "0.1T", "0.3T", "0.3T", "0.5T", "0.5T", "0.99T", "0.2T", "0.6T"],
             "fail_modes": ["none", "none", "some"], "alphabet": ["FAIL", "ERROR", "WARN", "SKIP"]},
